@@ -21,6 +21,16 @@ CHECKS = {
     "C06": ("S", "§5 C06", "possible-worlds FIFO/LIFO/filter reference incl. cancellation of granted retrievals"),
     "C07": ("S", "§5 C07", "every ill-formed call in every reachable state raises RuntimeError and leaves the canonical state unchanged (fork probe)"),
     "C11": ("S", "§5 C11", "can_put/can_get vs. probe reservation in a fork of every state; delay exactness from the ledger; drain probe"),
+    "C03": ("F", "§5 C03", "identity ledger of every flow item (one place at a time) + container scan after every kernel event + discard counters"),
+    "C08": ("F", "§5 C08", "items in machine <= work_capacity; offer time - pull time == drawn delay; delay drawn once per item"),
+    "C09": ("F", "§5 C09", "blocking nodes never discard; non-blocking nodes decide in the instant the item is finished; can_put answers vs ledger room"),
+    "C10": ("F", "§5 C10", "instant-end predicates: sink leaves nothing available, free worker has requests, finished item on offer, token hygiene"),
+    "C15": ("F", "§5 C15", "routing from the ledger vs policy (round robin, constant, callable/generator draws, RANDOM draws, first-available lowest index) and vs recorded selection history"),
+    "C16": ("F", "§5 C16", "pallet content by identity vs recipe at every combiner put; splitter emission sequence per pallet"),
+    "C17": ("F", "§5 C17", "independently integrated activity classes vs stats after update_final_state_time(T); partitions add up to T"),
+    "C18": ("F", "§5 C18", "counters vs ledger at every instant end; independent occupancy integral vs reported time average; cycle-time sum; timestamps"),
+    "C19": ("F", "§5 C19", "differential oracle: every enumerated run twice in-process and in 3 fresh interpreters (PYTHONHASHSEED 0/1/4242); monotone clock in every run"),
+    "C20": ("F", "§5 C20", "every run of the full grammar incl. conveyors must finish without exception or zero-time livelock; every invalid configuration must raise"),
     "C14": ("S", "§5 C14", "fleet batch / round-trip clauses from load times and observed availability times"),
 }
 NA_REASON = "check not built yet in this session (planned: see DESIGN.md §5); not claimed until it runs silent on the unchanged tree"
